@@ -11,8 +11,7 @@ edited site breaks `C22_all_fatal_sites_classified`, and with it the check.
 
 NOT proved (see the end of the file): that `compiler.Compile` itself never panics — the sites classified
 `reportedInvariant`, implicit run-time panics and non-termination are covered by the correspondence runs of
-harness/cmd/tmh/c22.go only, and crashes are known (the site classified `reachable`, plus the index panic
-`[C22-addtypes-minus-one]` which is not an explicit site; a third one, `[C22-bison-stringify]`, is fixed).
+harness/cmd/tmh/c22.go only, and crashes are known (see the end of the file).
 -/
 import TmVerif.Facts.Generated
 import TmVerif.Facts.ExpectC22
@@ -264,8 +263,8 @@ theorem C22_discharged_sites_cite_lemmas :
 /-- Summary of the classification (changes with the table; recorded so that a reclassification is visible). -/
 theorem C22_classification_counts :
     (fatalExpectations.map (fatalClassTag ·.cls)).count "discharged" = 9 ∧
-    (fatalExpectations.map (fatalClassTag ·.cls)).count "reported-invariant" = 33 ∧
-    (fatalExpectations.map (fatalClassTag ·.cls)).count "reachable" = 1 ∧
+    (fatalExpectations.map (fatalClassTag ·.cls)).count "reported-invariant" = 32 ∧
+    (fatalExpectations.map (fatalClassTag ·.cls)).count "reachable" = 2 ∧
     (fatalExpectations.map (fatalClassTag ·.cls)).count "outside-compile" = 11 := by decide
 
 /-! ## What is not proved
@@ -273,8 +272,10 @@ theorem C22_classification_counts :
 The full statement of the property — for every text `compiler.Compile` terminates without panic or exit — is
 about the real implementation; no Lean model of `Compile` exists, so it is not a theorem here. What the
 theorems above give: the position arithmetic is right for all inputs (Part 1), 9 of the 54 explicit crash sites
-are dead (Parts 2 and 3), and the inventory is complete and current (Part 3). The 33 `reportedInvariant` sites,
-implicit run-time panics and termination rest on the correspondence runs; the `reachable` site
-`[C22-lalrk-optimize]` and the index panic `[C22-addtypes-minus-one]` refute crash freedom for the unfixed tree. -/
+are dead (Parts 2 and 3), and the inventory is complete and current (Part 3). The 32 `reportedInvariant` sites,
+implicit run-time panics (nil, index, stack overflow) and termination rest on the correspondence runs. For the
+tree as classified, crash freedom is REFUTED by the two `reachable` sites (`[C22-lalrk-optimize]`,
+`[C22-greedy-lookback]`) and by three implicit panics found by the harness (`[C22-addtypes-minus-one]`,
+`[C22-argrefs-stale-after-instantiate]`, `[C22-recursive-set-instantiate]`); fixes: /verif/fixes/C22-*.diff. -/
 
 end TmVerif.C22
